@@ -11,7 +11,7 @@ try:
     if r.returncode != 0:
         print("patch failed:", r.stdout.decode()[:300]); sys.exit(3)
     for pid in pids.split(","):
-        r = subprocess.run(["/verif/check", pid, "--repo", tmp, "--no-evidence"], stdout=subprocess.PIPE, stderr=subprocess.STDOUT)
+        r = subprocess.run(["/verif/check", pid, "--repo", tmp, "--no-evidence", "--strict"], stdout=subprocess.PIPE, stderr=subprocess.STDOUT)
         out = [l for l in r.stdout.decode().splitlines() if not l.startswith("VIOLATION")]
         print("[%s] rc=%d" % (pid, r.returncode))
         for l in out[:6]:
